@@ -275,13 +275,13 @@ def parse_register(text, name):
     return [int(x) for x in re.findall(r"-?\d+", m.group(1))]
 
 
-def validate_trace(ctx, trace_module, constants, obs_path, prop, tagbase, chunk=60000, parallel=4):
+def validate_trace(ctx, trace_module, constants, obs_path, prop, tagbase, chunk=60000, parallel=4, spec="Spec"):
     """Validates obs_path with spec/<trace_module>.tla in chunks.  Returns (bad, drift, consumed)."""
     lines = [x for x in open(obs_path).read().split("\n") if x.strip()]
     chunks = [lines[i:i + chunk] for i in range(0, len(lines), chunk)] or [[]]
     bad, drift, consumed = [], [], 0
     cfg_path = os.path.join(ctx["dir"], tagbase + ".cfg")
-    write_cfg(cfg_path, dict(spec="Spec", constants=constants, post="Report"))
+    write_cfg(cfg_path, dict(spec=spec, constants=constants, post="Report"))
     jobs = []
     for ci, ch in enumerate(chunks):
         if not ch:
@@ -436,14 +436,14 @@ def run_stage(ctx, plan, st, seed, tier, models_cases):
     n_obs = lint_file(obs)
     t0 = time.time()
     bad, drift, consumed = validate_trace(ctx, st["trace"], st.get("trace_constants", {}), obs, prop, "tr_" + tag,
-                                          chunk=st.get("chunk", 60000))
+                                          chunk=st.get("chunk", 60000), spec=st.get("trace_spec", "Spec"))
     t_v = time.time() - t0
     # replay records for rejected events
     viol = []
     for rec in bad:
         case = read_case(case_files, rec.get("case", -1))
         viol.append(dict(property=prop, stage=tag, family=st["family"], profile=profile, params=st.get("params", {}),
-                         trace=st["trace"], trace_constants=st.get("trace_constants", {}), case=case, obs=rec))
+                         trace=st["trace"], trace_constants=st.get("trace_constants", {}), trace_spec=st.get("trace_spec", "Spec"), case=case, obs=rec))
     # samples and distinct count
     samples = []
     distinct = set()
@@ -577,7 +577,7 @@ def run_replay(prop, path):
         obs = os.path.join(wd, "obs.ndjson")
         harness_run(binary, rec["family"], [cf], obs, rec.get("params", {}), 1)
         lint_file(obs)
-        bad, drift, consumed = validate_trace(ctx, rec["trace"], rec.get("trace_constants", {}), obs, prop, "tr_replay")
+        bad, drift, consumed = validate_trace(ctx, rec["trace"], rec.get("trace_constants", {}), obs, prop, "tr_replay", spec=rec.get("trace_spec", "Spec"))
     except ToolError as e:
         log("TOOL-ERROR %s" % e)
         return 2
